@@ -107,13 +107,15 @@ class GeoNetwork(SpatialNetwork):
         #  Set instance variable accordingly
         self.node_weight_type = node_weight_type
 
+        #  Use the property setter, which also updates the weight totals and
+        #  the mutation counter that cached n.s.i. measures are keyed on
         if node_weight_type == "surface":
-            self._node_weights = self.grid.cos_lat()
+            self.node_weights = self.grid.cos_lat()
         elif node_weight_type == "irrigation":
-            self._node_weights = np.square(self.grid.cos_lat())
-        #  If None or invalid choice:
+            self.node_weights = np.square(self.grid.cos_lat())
+        #  If None or invalid choice: constant unit weights
         else:
-            self._node_weights = None
+            self.node_weights = None
 
     #
     #  Load and save GeoNetwork object
